@@ -32,14 +32,15 @@ const (
 	ulKey  = "ulimits.nri.containerd.io"
 )
 
-// payload alphabets: index 0 absent, 1 valid A, 2 valid B, 3 malformed
+// payload alphabets: index 0 absent, 1 valid A, 2 valid B, 3 malformed. One valid payload of each family
+// starts, without a leading newline, on an indented line (YAML is indentation-sensitive: the value must
+// reach the decoder as it was annotated), the other with a newline at column 0.
 var payloads = map[string][]string{
-	devKey: {"", `
-- path: /dev/a
-  type: c
-  major: 10
-  minor: 20
-  gid: 7
+	devKey: {"", `  - path: /dev/a
+    type: c
+    major: 10
+    minor: 20
+    gid: 7
 `, `
 - path: /dev/b1
   type: b
@@ -57,10 +58,9 @@ var payloads = map[string][]string{
   major: 4
   minor: 5
 `, `- path: [unterminated`},
-	mntKey: {"", `
-- source: /src/a
-  destination: /dst/a
-  type: bind
+	mntKey: {"", `  - source: /src/a
+    destination: /dst/a
+    type: bind
 `, `
 - source: /src/b1
   destination: /dst/b1
@@ -73,21 +73,19 @@ var payloads = map[string][]string{
 - source: /src/b3
   destination: /dst/b3
 `, `just a string, not a list`},
-	cdiKey: {"", `["vendor.com/dev=a"]`, `
-- vendor.com/dev=b1
-- other.org/class=b2
+	cdiKey: {"", `["vendor.com/dev=a"]`, `  - vendor.com/dev=b1
+  - other.org/class=b2
 `, `{"not": "a list"}`},
 	ulKey: {"", `
 - type: RLIMIT_NOFILE
   hard: 1024
   soft: 512
-`, `
-- type: memlock
-  hard: 65536
-  soft: 65536
-- type: rlimit_core
-  hard: 0
-  soft: 0
+`, `  - type: memlock
+    hard: 65536
+    soft: 65536
+  - type: rlimit_core
+    hard: 0
+    soft: 0
 `, `- type: [`},
 }
 
